@@ -2,8 +2,11 @@
 //! vcheck-bin <ID> --replay <file>           strict replay of one case file
 //! (internal) --child                        run inside a supervised child process
 
+mod data;
+mod eval;
 mod exec;
 mod gen_stmt;
+mod gen_typed;
 mod props;
 mod run;
 mod sql;
@@ -70,6 +73,7 @@ fn main() {
         std::process::exit(2);
     }
     let code = match args[0].as_str() {
+        "C03" => dispatch(props::c03::C03, &args),
         "C10" => dispatch(props::c10::C10, &args),
         "C12" => dispatch(props::c12::C12, &args),
         "C13" => dispatch(props::c13::C13, &args),
